@@ -314,6 +314,7 @@ CHECKS = {
     'C17': {
         'level': 'model_checking',
         'jobs': [
+            C('link', 'TestLinkReal', 'TraceLink', env={'VERIF_LINK_PATS': 'pair,reqrep,survey,pubsub'}),   # what Recv() returned (socket and context) is looked at again after later traffic
             R('xrep', 'xrep'), R('xrespondent', 'xrespondent'),
             T('MC_Msg', 'Msg.cfg', workers=4),
             C('msg', 'TestMsg', 'TraceMsg', n={'quick': 12, 'thorough': 150}, trivial_len=6),
